@@ -314,18 +314,30 @@ fn lower(s: &str) -> String {
     s.chars().flat_map(char::to_lowercase).collect()
 }
 
-/// Independent checksum canonicaliser: `Err(())` when the text is malformed.
-fn canonical_checksum(text: &str) -> Result<String, ()> {
+enum ChecksumError {
+    /// An entry without ':', or with odd / non-hex digits.
+    Malformed,
+    /// Well-formed entries, but an algorithm occurs twice (in any letter case). C14 says "canonicalised
+    /// or refused"; which of the two happens to a repeated algorithm is C05's business.
+    Duplicate,
+}
+
+/// Independent checksum canonicaliser.
+fn canonical_checksum(text: &str) -> Result<String, ChecksumError> {
     let mut model: BTreeMap<String, String> = BTreeMap::new();
+    let mut duplicate = false;
     for entry in text.split(',') {
-        let at = entry.rfind(':').ok_or(())?;
+        let at = entry.rfind(':').ok_or(ChecksumError::Malformed)?;
         let (alg, hex) = (&entry[..at], &entry[at + 1..]);
         if hex.len() % 2 != 0 || !hex.bytes().all(|b| b.is_ascii_hexdigit()) {
-            return Err(());
+            return Err(ChecksumError::Malformed);
         }
         if model.insert(lower(alg), hex.to_ascii_lowercase()).is_some() {
-            return Err(());
+            duplicate = true;
         }
+    }
+    if duplicate {
+        return Err(ChecksumError::Duplicate);
     }
     let parts: Vec<String> = model.iter().map(|(a, h)| format!("{a}:{h}")).collect();
     Ok(parts.join(","))
@@ -336,11 +348,14 @@ fn is_type_char(c: char) -> bool {
 }
 
 enum Expect {
-    /// `Err(MissingRequiredField(Name))`, or any `Err` when `any_err`.
+    /// The name is empty: refused.
     MissingName,
+    /// The checksum is malformed: refused.
     InvalidQualifier,
     /// Both defects at once: any error, no PURL.
     AnyErr,
+    /// An algorithm is repeated: refused, or a PURL whose checksum is in canonical form.
+    RefusedOrCanonical,
     Purl { snap: PartsSnap, ty: String },
 }
 
@@ -348,9 +363,10 @@ fn expectation(after: &PartsSnap, shape_after: &str) -> Expect {
     let checksum = after.qualifiers.iter().find(|(k, v)| k == "checksum" && !v.is_empty()).map(|(_, v)| v.as_str());
     let checksum = checksum.map(canonical_checksum);
     match (after.name.is_empty(), &checksum) {
-        (true, Some(Err(()))) => Expect::AnyErr,
+        (true, Some(Err(_))) => Expect::AnyErr,
         (true, _) => Expect::MissingName,
-        (false, Some(Err(()))) => Expect::InvalidQualifier,
+        (false, Some(Err(ChecksumError::Malformed))) => Expect::InvalidQualifier,
+        (false, Some(Err(ChecksumError::Duplicate))) => Expect::RefusedOrCanonical,
         (false, _) => {
             let mut snap = after.clone();
             snap.qualifiers.retain(|(_, v)| !v.is_empty());
@@ -513,6 +529,17 @@ fn judge(
             Expect::AnyErr => match result {
                 Err(SimError::Parse(_)) => Ok(()),
                 other => Err(violation!("C14.invalid_parts_accepted", "{ctx}: the hook left an empty name and a malformed checksum, the result is {}", describe(other))),
+            },
+            Expect::RefusedOrCanonical => match result {
+                Err(SimError::Parse(_)) => Ok(()),
+                Ok(purl) => {
+                    let text = purl.qualifiers().get("checksum").unwrap_or("");
+                    match canonical_checksum(text) {
+                        Ok(canon) if canon == text => Ok(()),
+                        _ => Err(violation!("C14.checksum_neither_canonical_nor_refused", "{ctx}: the hook left a checksum with a repeated algorithm {:?}; the PURL carries {text:?}, which is not in canonical form", after.qualifiers)),
+                    }
+                },
+                other => Err(violation!("C14.checksum_neither_canonical_nor_refused", "{ctx}: the hook left a checksum with a repeated algorithm, the result is {}", describe(other))),
             },
             Expect::MissingName => match result {
                 // "Refused": any generic error; which variant is C05's business, not C14's.
